@@ -218,6 +218,14 @@ func (f *Frame) specEval1(e SExpr, env *SpecEnv) Val {
 			ne.names[v.Name] = Val{T: nm, Ty: t}
 			guards = append(guards, f.c.sorts.TypeInv(nm, t, 0)...)
 		}
+		// bound variables are the same inside old(...): they shadow entry-state names there too
+		if ne.old != nil && ne.old != env {
+			no := ne.old.child()
+			for _, v := range x.Vars {
+				no.names[v.Name] = ne.names[v.Name]
+			}
+			ne.old = no
+		}
 		saveSt := ne.st
 		ne.st = nil // no side assumptions about bound variables
 		body := f.specEval(x.Body, ne)
@@ -554,6 +562,12 @@ func (f *Frame) specCall(x *SCall, env *SpecEnv) Val {
 			c := f.specEval(x.Args[0], env)
 			a := f.specEval(x.Args[1], env)
 			b := f.specEval(x.Args[2], env)
+			// an untyped nil branch takes the type (and zero value) of the other branch
+			if a.T == "nil" && b.Ty != nil && b.T != "nil" {
+				a = Val{T: f.c.sorts.Zero(b.Ty), Ty: b.Ty}
+			} else if b.T == "nil" && a.Ty != nil && a.T != "nil" {
+				b = Val{T: f.c.sorts.Zero(a.Ty), Ty: a.Ty}
+			}
 			r := Val{T: ite(c.T, a.T, b.T), Ty: a.Ty, IsBool: a.IsBool}
 			if isIntLike(a) && isIntLike(b) {
 				r.Ty = nil
@@ -627,6 +641,22 @@ func (f *Frame) specCall(x *SCall, env *SpecEnv) Val {
 				sfail("bigfresh() outside a postcondition")
 			}
 			return Val{T: fmt.Sprintf("(>= %s %s)", v.T, env.old.gh[bigNextKey].T), IsBool: true}
+		case "as":
+			// as(x, T): the value of interface x asserted to the concrete type T (x.(T) in Go)
+			if len(x.Args) != 2 {
+				sfail("as(x, T) takes two arguments")
+			}
+			xv := f.specEval(x.Args[0], env)
+			tt := f.resolveType(env, x.Args[1].String())
+			if xv.Ty == nil {
+				sfail("as(x, T): x is not an interface value")
+			}
+			xs, tso := f.c.sorts.SortOf(xv.Ty), f.c.sorts.SortOf(tt)
+			if xs != "Ifc" && xs != "Err" {
+				sfail("as(x, T): x is not an interface value")
+			}
+			un := f.c.uf("unbox_"+xs+"_"+sanitize(tso), []string{xs}, tso)
+			return Val{T: fmt.Sprintf("(%s %s)", un, xv.T), Ty: tt}
 		case "zero":
 			// zero(T): the zero value of a Go type
 			t := f.resolveType(env, x.Args[0].String())
@@ -641,6 +671,10 @@ func (f *Frame) specCall(x *SCall, env *SpecEnv) Val {
 			k := f.specEval(x.Args[0], env)
 			m := f.specEval(x.Args[1], env)
 			if m.Ty == nil {
+				if id, ok := x.Args[1].(*SIdent); ok && id.Name == "#visited" {
+					// the set of keys a range-over-map loop has already visited
+					return Val{T: fmt.Sprintf("(select %s %s)", m.T, k.T), IsBool: true}
+				}
 				sfail("'in' needs a map")
 			}
 			st := env.st
